@@ -29,7 +29,7 @@ PID = "C16"
 FLAVOURS = [(True, True), (True, False), (False, True), (False, False)]       # (oid_is_path, case_sensitive)
 # the four flavours, plus the two event-translation switches of MockProvider (filter_events, oidless_folder_trash_events)
 MOCK_CONFIGS = [f + (False, False) for f in FLAVOURS] * 3 + [(False, True, True, False), (False, False, False, True)]
-NAMES = ["a", "A", "b", "B", "c", "é", "É", "中", "a.b", "A.B", ".x", "x.", "...", " "]
+NAMES = ["a", "A", "b", "B", "c", "é", "É", "中", "a.b", "A.B", ".x", "x.", "...", " ", "ab", "Ab"]
 MOCK_ONLY_NAMES = [".", ".."]
 BAD_MOCK = "a`b"
 NOT_INTS = ["3", 1.0, b"1", (1,)]           # values current_cursor must refuse with CloudCursorError
@@ -141,7 +141,10 @@ class RealFS:
         import_repo()
         from cloudsync.providers.filesystem import FileSystemProvider
         self.cls = FileSystemProvider
-        self.base = os.path.realpath(tempfile.mkdtemp(prefix="c16_"))
+        shm = "/dev/shm" if os.path.isdir("/dev/shm") and os.access("/dev/shm", os.W_OK) else None
+        self.base = os.path.realpath(tempfile.mkdtemp(prefix="c16_", dir=shm))     # /tmp is slow in the sandbox
+        self._old_tempdir = tempfile.tempdir
+        tempfile.tempdir = self.base            # FileSystemProvider.upload stages its data in tempfile.gettempdir()
         self.n = 0
         self.p = None
         self.kind = "fs"
@@ -169,15 +172,36 @@ class RealFS:
         self.ns = self.p.namespace_id
         return self.p
 
+    def wait_watching(self):
+        """the observer of a fresh namespace starts asynchronously: wait until it demonstrably reports (a probe file's
+        creation and deletion), then drain"""
+        probe = os.path.join(self.ns, ".c16probe")
+        deadline = time.monotonic() + 3.0
+        with open(probe, "wb"):
+            pass
+        seen = False
+        while not seen and time.monotonic() < deadline:
+            seen = any(e.oid == probe for e in self.p.events())
+            if not seen:
+                time.sleep(0.005)
+        os.unlink(probe)
+        self.quiesce()
+        list(self.p.events())
+
     def quiesce(self):
-        last = -1
-        for _ in range(100):
+        self.settle()
+        list(self.p.events())
+
+    def settle(self):
+        """wait until no more events arrive (does not consume them)"""
+        last, same = -1, 0
+        for _ in range(400):
             cur = self.p.latest_cursor
-            if cur == last:
+            same = same + 1 if cur == last else 0
+            if same >= 2:
                 break
             last = cur
-            time.sleep(0.03)
-        list(self.p.events())
+            time.sleep(0.012)
 
     def close(self):
         if self.p is not None:
@@ -193,6 +217,7 @@ class RealFS:
         time.sleep(0.05)
         import threading
         threading.excepthook = self._old_hook
+        tempfile.tempdir = self._old_tempdir
         shutil.rmtree(self.base, ignore_errors=True)
 
     def oid_out(self, oid):
@@ -458,6 +483,48 @@ class GenState:
         self.seen_oids = []
         self.saved_cursors = []        # model values (Python value + 1) returned by current_cursor / latest_cursor
         self.after_setcur = False
+        self.last_oid = {}             # path -> the id last handed out for it (live or since trashed)
+        self.touched = set()           # every path mentioned in this sequence (swept after mutations)
+
+    def resolve(self, ref, arg):
+        """('@', path) stands for "the id of whatever is / was last at path" (a stale or bogus id if nothing is)"""
+        if not (isinstance(arg, tuple) and arg and arg[0] == "@"):
+            return arg
+        path = arg[1]
+        n = ref.nodes.get(ref.key(ref.parts(path)))
+        if n is not None and n.oid is not None:
+            return n.oid
+        if path in self.last_oid:
+            return self.last_oid[path]
+        return path if self.be.kind == "fs" or ref.oip else "nope"
+
+    def collision_dst(self, ref, src_oid):
+        """a rename destination chosen to collide: an occupied name of any kind, the object's own path, a case variant of an
+        existing name (occupied or not), a name that is a prefix / extension of an existing one, a trashed name"""
+        rng = self.rng
+        alls = [n.disp for k, n in ref.nodes.items() if k != ()]
+        sk = ref.by_oid(src_oid)
+        own = ref.nodes[sk].disp if sk is not None else None
+        r = rng.random()
+        if own is not None and r < 0.12:
+            return tuple(own)
+        if own and r < 0.27:
+            return tuple(own[:-1]) + (own[-1].swapcase(),)
+        if alls and r < 0.60:
+            return tuple(rng.choice(alls))
+        if alls and r < 0.72:
+            q = rng.choice(alls)
+            return tuple(q[:-1]) + (q[-1].swapcase(),)
+        if alls and r < 0.82:
+            q = rng.choice(alls)
+            nm = rng.choice([q[-1] + "b", q[-1][:-1] or "a", q[-1] + ".b"])
+            if nm in (".", "..") and self.be.kind == "fs":        # special to the OS, not names
+                nm = "a"
+            return tuple(q[:-1]) + (nm,)
+        trashed = [pth for pth in self.last_oid if ref.nodes.get(ref.key(ref.parts(pth))) is None]
+        if trashed and r < 0.92:
+            return ref.parts(rng.choice(trashed))
+        return self.rand_parts(ref)
 
     def rand_parts(self, ref, want_new=None):
         rng = self.rng
@@ -512,7 +579,10 @@ def gen_op(gs, ref, allowed=None):
     if k == "upload":
         return ("upload", gs.rand_oid(ref), tok())
     if k == "rename":
-        return ("rename", gs.rand_oid(ref), gs.rand_path(ref))
+        src = gs.rand_oid(ref)
+        if rng.random() < 0.5:
+            return ("rename", src, "/" + "/".join(gs.collision_dst(ref, src)))
+        return ("rename", src, gs.rand_path(ref))
     if k == "hashd":
         return ("hashd", tok())
     if k == "setcur":
@@ -549,11 +619,13 @@ def shadow_update(gs, ref, op, res):
             if r[0] == "ok":
                 ref.nodes[r[1]].oid = dec_str(res.split(" ")[2])
                 gs.seen_oids.append(ref.nodes[r[1]].oid)
+                gs.last_oid[op[1]] = ref.nodes[r[1]].oid
         elif k == "mkdir":
             r = ref.mkdir(op[1])
             if r[0] == "ok":
                 ref.nodes[r[1][0]].oid = dec_str(res.split(" ")[1])
                 gs.seen_oids.append(ref.nodes[r[1][0]].oid)
+                gs.last_oid[op[1]] = ref.nodes[r[1][0]].oid
         elif k == "upload":
             ref.upload(ref.by_oid(op[1]), op[2])
         elif k == "delete":
@@ -570,16 +642,48 @@ def shadow_update(gs, ref, op, res):
                             n.oid = ref.pathstr(n.disp)
                     ref.nodes[dk].oid = new_oid
                 gs.seen_oids.append(new_oid)
+                gs.last_oid[op[2]] = new_oid
     except Exception:  # noqa  (the shadow is best effort)
         pass
 
 
-def run_sequences(be, ct, rng, nseq, nlen, flavours, layer, names, bad_names, allowed=None, with_dump=False):
-    """Adaptive generation against the real provider; returns (driver lines, real results, per-line meta)."""
+MUTATING = {"create", "mkdir", "upload", "rename", "delete"}
+
+
+def op_paths(op):
+    """the paths a (possibly symbolic) call mentions"""
+    out = []
+    for i, x in enumerate(op[1:], 1):
+        if isinstance(x, tuple) and x and x[0] == "@":
+            out.append(x[1])
+        elif isinstance(x, str) and x.startswith("/") and (op[0] in ("create", "mkdir", "infop", "existsp") or (op[0] == "rename" and i == 2)):
+            out.append(x)
+    return out
+
+
+def sweep_ops(gs, ref):
+    """after a mutating call: info of every path mentioned so far in the sequence, the bytes of every file and the listing
+    of every folder the shadow tree believes is there (a lost or altered object shows either way)"""
+    ops = []
+    for path in sorted(gs.touched | {"/"}):
+        ops.append(("infop", path))
+        n = ref.nodes.get(ref.key(ref.parts(path)))
+        if n is not None and n.oid is not None:
+            ops.append(("download", n.oid) if n.kind == "F" else ("listdir", n.oid))
+    return ops
+
+
+def run_sequences(be, ct, rng, nseq, nlen, flavours, layer, names, bad_names, allowed=None, with_dump=False,
+                  programs=None, sweep=0.0, one_namespace=False):
+    """Adaptive generation against the real provider (or the given symbolic programs); returns (driver lines, real
+    results, per-line meta).  `sweep`: probability of a full read-back of every mentioned path after a mutating call."""
     lines, reals, ops_meta = [], [], []
+    nseq = len(programs) if programs is not None else nseq
     for s in range(nseq):
-        fl = flavours[s % len(flavours)]
-        if be.kind == "mock":
+        fl = flavours[s % len(flavours)] if programs is None else programs[s][0]
+        if one_namespace and s > 0:
+            pass                                   # programs live in their own top-level folders of one namespace
+        elif be.kind == "mock":
             be.new(*fl)
             lines.append("reset " + " ".join(enc_bool(x) for x in (tuple(fl) + (False, False))[:4]))
             ref = RefTree(fl[0], fl[1], lambda x: "`" in x)
@@ -589,34 +693,131 @@ def run_sequences(be, ct, rng, nseq, nlen, flavours, layer, names, bad_names, al
             lines.append("reset T F F")
             ref = RefTree(True, True, lambda x: len(x) > 255, name_first=False)
             ref.nodes[()].oid = "/"
-        reals.append("unit")
-        ops_meta.append(("reset", fl))
+        if not (one_namespace and s > 0):
+            reals.append("unit")
+            ops_meta.append(("reset", fl))
         gs = GenState(rng, be, ct, names, bad_names)
-        n = rng.randint(3, nlen)
+        prog = None if programs is None else programs[s][1]
+        n = rng.randint(3, nlen) if prog is None else len(prog)
+
+        def emit(op, tag=None):
+            res = real_apply(be, ct, op)
+            lines.append(op_line(op, ct))
+            reals.append(res)
+            ops_meta.append((tag or (op[0] if op[0] != "setcur" else "setcur:" + cursor_class(op[1], gs)), fl))
+            return res
+
         for i in range(n):
-            op = gen_op(gs, ref, allowed)
-            if gs.after_setcur and rng.random() < 0.75:
-                op = ("events",)               # a rewind is followed by a drain
+            if prog is None:
+                op = gen_op(gs, ref, allowed)
+                if gs.after_setcur and rng.random() < 0.75:
+                    op = ("events",)               # a rewind is followed by a drain
+            else:
+                op = prog[i]
+            if op[0] == "sweep":
+                for sop in sweep_ops(gs, ref):
+                    if be.kind == "fs" and not fs_op_ok(ref, sop):
+                        continue
+                    emit(sop, "sweep")
+                continue
+            gs.touched.update(op_paths(op))
+            op = tuple(gs.resolve(ref, x) for x in op)
             gs.after_setcur = op[0] == "setcur"
-            if be.kind == "fs" and not fs_op_ok(ref, op):
+            if be.kind == "fs" and (op[0] not in FS_OPS or not fs_op_ok(ref, op)):
                 continue
             if be.kind == "mock" and not mock_op_deterministic(be, op):
                 ops_meta.append(("skipped-set-order", fl))
                 lines.append("current")
                 reals.append(real_apply(be, ct, ("current",)))
                 continue
-            res = real_apply(be, ct, op)
-            lines.append(op_line(op, ct))
-            reals.append(res)
-            ops_meta.append((op[0] if op[0] != "setcur" else "setcur:" + cursor_class(op[1], gs), fl))
+            res = emit(op)
             if op[0] in ("current", "latest") and res.startswith("cur "):
                 gs.saved_cursors.append(int(res.split(" ")[1]))
             shadow_update(gs, ref, op, res)
+            if op[0] in MUTATING and sweep and (sweep >= 1.0 or rng.random() < sweep):
+                for sop in sweep_ops(gs, ref):
+                    if be.kind == "fs" and not fs_op_ok(ref, sop):
+                        continue
+                    emit(sop, "sweep")
         if with_dump:
             lines.append("dump")
             reals.append(real_apply(be, ct, ("dump",)))
             ops_meta.append(("dump", fl))
     return lines, reals, ops_meta
+
+
+def prefixed(prog, pre):
+    """the same program inside its own top-level folder `pre` (one namespace can then host many programs)"""
+    def fix(x):
+        if isinstance(x, tuple) and x and x[0] == "@":
+            return ("@", pre + x[1])
+        return pre + x if isinstance(x, str) and x.startswith("/") else x
+    return [("mkdir", pre)] + [tuple([op[0]] + [fix(x) for x in op[1:]]) for op in prog]
+
+
+def collision_programs():
+    """Every kind of name collision, as small symbolic programs (ids are written ('@', path) = "whatever is / was at path").
+    rename: source kind (file, empty folder, non-empty folder) x destination state (free, file, empty folder, non-empty
+    folder, trashed file, trashed folder, the object itself, a case variant of itself, a case variant occupied by a file /
+    an empty folder / a non-empty folder, a name that is a prefix or an extension of the source's, below a file, below a
+    missing folder), for three name pairs; create / mkdir / upload / delete over occupied, trashed and case-variant names."""
+    progs = []
+    pairs = [("a", "A"), ("é", "É"), ("a.b", "A.B")]
+
+    def make(kind, path, tok):
+        if kind == "F":
+            return [("create", path, tok)]
+        if kind == "D0":
+            return [("mkdir", path)]
+        return [("mkdir", path), ("create", path + "/k", tok + 1), ("mkdir", path + "/sub")]
+
+    for pi, (x, X) in enumerate(pairs):
+        first = len(progs)
+        # a folder whose children were created through another spelling of its name (and of its parent's), then moved
+        for tag, dst in (("free", "/p/zz"), ("free-other-folder", "/q/" + x), ("case-of-self", "/p/" + X)):
+            progs.append(("rename:Dv->%s" % tag,
+                          [("mkdir", "/p"), ("mkdir", "/q"), ("mkdir", "/p/" + x), ("create", "/p/" + X + "/k", 4),
+                           ("mkdir", "/P/" + x + "/sub"), ("create", "/P/" + X + "/sub/deep", 5), ("events",),
+                           ("rename", ("@", "/p/" + x), dst), ("events",), ("sweep",), ("listdir", ("@", dst)),
+                           ("infop", dst + "/k"), ("infop", dst + "/sub/deep"), ("rename", ("@", dst), "/p/" + x),
+                           ("events",), ("sweep",)]))
+        for sk in ("F", "D0", "D1"):
+            src = "/p/" + x
+            base = [("mkdir", "/p"), ("mkdir", "/q")] + make(sk, src, 3)
+            dsts = [
+                ("free", [], "/p/zz"), ("free-other-folder", [], "/q/" + x),
+                ("file", make("F", "/p/b", 10), "/p/b"), ("empty-folder", make("D0", "/p/b", 0), "/p/b"),
+                ("non-empty-folder", make("D1", "/p/b", 11), "/p/b"),
+                ("trashed-file", make("F", "/p/b", 10) + [("delete", ("@", "/p/b"))], "/p/b"),
+                ("trashed-folder", make("D0", "/p/b", 0) + [("delete", ("@", "/p/b"))], "/p/b"),
+                ("self", [], src), ("case-of-self", [], "/p/" + X),
+                ("case-variant-file", make("F", "/p/" + X, 12), "/p/" + X),
+                ("case-variant-empty-folder", make("D0", "/p/" + X, 0), "/p/" + X),
+                ("case-variant-non-empty-folder", make("D1", "/p/" + X, 13), "/p/" + X),
+                ("extension-occupied", make("F", "/p/" + x + "b", 9), "/p/" + x + "b"),
+                ("prefix-occupied", make("D0", "/p/" + x[:1], 0) if len(x) > 1 else make("D0", "/p/" + x + x, 0),
+                 "/p/" + (x[:1] if len(x) > 1 else x + x)),
+                ("below-file", make("F", "/p/f", 2), "/p/f/in"), ("below-missing", [], "/p/none/in"),
+                ("into-empty-folder", make("D0", "/q/t", 0), "/q/t/" + X),
+            ]
+            for tag, setup, dst in dsts:
+                progs.append(("rename:%s->%s" % (sk, tag),
+                              base + setup + [("events",), ("rename", ("@", src), dst), ("events",), ("sweep",),
+                                              ("listdir", ("@", "/p")), ("listdir", ("@", "/q")),
+                                              ("rename", ("@", dst), src), ("events",), ("delete", ("@", "/p/b")), ("sweep",)]))
+        # create / mkdir / upload / delete over occupied, trashed and case-variant names
+        for tk in ("F", "D0", "D1"):
+            tgt = "/p/" + x
+            base = [("mkdir", "/p")] + make(tk, tgt, 4)
+            progs.append(("create-over:%s" % tk, base + [("create", tgt, 5), ("create", "/p/" + X, 6), ("create", tgt + "/in", 7),
+                                                         ("events",), ("sweep",)]))
+            progs.append(("mkdir-over:%s" % tk, base + [("mkdir", tgt), ("mkdir", "/p/" + X), ("mkdir", tgt + "/in"), ("events",), ("sweep",)]))
+            progs.append(("upload-to:%s" % tk, base + [("upload", ("@", tgt), 8), ("upload", ("@", "/p/" + X), 9), ("events",), ("sweep",)]))
+            progs.append(("delete:%s" % tk, base + [("delete", ("@", tgt)), ("events",), ("delete", ("@", tgt)),
+                                                    ("upload", ("@", tgt), 8), ("create", tgt, 9), ("mkdir", tgt),
+                                                    ("delete", ("@", "/p/" + X)), ("events",), ("sweep",)]))
+        progs[first:] = [("p%d|%s" % (pi, t), o) for t, o in progs[first:]]
+    return progs
 
 
 def mock_op_deterministic(be, op):
@@ -683,6 +884,8 @@ def fs_op_ok(ref, op):
     paths = [x for x in op[1:] if isinstance(x, str)]
     for p in paths:
         parts = RefTree.parts(p)
+        if any(x in (".", "..") for x in parts):
+            return False
         if any(len(x) > 255 for x in parts[:-1]):
             return False
         if parts and len(parts[-1]) > 255 and k not in ("create", "mkdir"):
@@ -719,7 +922,10 @@ def diff(lines, reals, model, layer, canon_real=lambda x: x):
             j = i
             while not lines[j].startswith("reset"):
                 j -= 1
-            dis.append({"layer": layer, "sequence": lines[j:i + 1], "implementation": r, "model": canon_model(m)})
+            seq = lines[j:i + 1]
+            if len(seq) > 80:                      # many programs share one namespace: keep the start and the recent calls
+                seq = seq[:1] + ["... %d earlier calls ..." % (len(seq) - 61)] + seq[-60:]
+            dis.append({"layer": layer, "sequence": seq, "implementation": r, "model": canon_model(m)})
             if len(dis) >= 5:
                 break
     return dis
@@ -1070,6 +1276,26 @@ def guard_ok(ref, op, flavour_ci_path):
     return True
 
 
+class StreamView:
+    """What a consumer of events() believes: per id the last event wins (exists flag).  Path-style ids: a rename event
+    retires its prior_oid and re-keys everything known beneath a renamed folder (what the sync engine does)."""
+
+    def __init__(self, prov, oip):
+        self.prov, self.oip = prov, oip
+        self.exists = {}
+
+    def feed(self, ev):
+        if ev.oid is None:
+            return
+        if self.oip and ev.prior_oid and ev.prior_oid != ev.oid:
+            for known in list(self.exists):
+                rel = self.prov.is_subpath(ev.prior_oid, known, strict=True)
+                if rel:
+                    self.exists[ev.oid + rel] = self.exists.pop(known)
+            self.exists[ev.prior_oid] = False
+        self.exists[ev.oid] = bool(ev.exists)
+
+
 def contract_oracle(be, ct, rng, flavour, nops, names, bad_names, allowed=None, fixed_ops=None):
     """Runs a guarded random sequence (or the given one) on the real provider and checks every contract clause
     against the pure Python reference tree.  Returns a failure dict (with the operation list) or None."""
@@ -1088,8 +1314,11 @@ def contract_oracle(be, ct, rng, flavour, nops, names, bad_names, allowed=None, 
     done = []
     ci_path = be.kind == "mock" and flavour[0] and not flavour[1]
     log = []                     # every event the contract expects in the stream so far: (oid, exists), index = cursor
+    view = StreamView(p, ref.oip)
     if be.kind == "mock":
         log = [(e.oid, bool(e.exists)) for e in p.events()]
+    else:
+        be.wait_watching()
 
     def fail(msg):
         return {"provider": be.kind, "flavour": {"oid_is_path": flavour[0], "case_sensitive": flavour[1]},
@@ -1116,14 +1345,93 @@ def contract_oracle(be, ct, rng, flavour, nops, names, bad_names, allowed=None, 
         return None
 
     def expect_events(exp):
-        """mock: synchronous — drained events must be exactly `exp` [(oid, exists)] in order"""
+        """mock (synchronous stream): the events drained after a call must tell, for every id the call changed, its new
+        existence (and its kind) — per id the last event wins — and the folded stream must agree with exists_oid for every
+        id it ever mentioned.  `exp`: [(oid, exists, kind)]."""
         if be.kind != "mock":
             return None
-        got = [(e.oid, bool(e.exists)) for e in p.events()]
-        if got != exp:
-            return "events() after the call yielded %r, expected %r" % (got, exp)
-        log.extend(exp)
+        evs = list(p.events())
+        for e in evs:
+            view.feed(e)
+        log.extend((e.oid, bool(e.exists)) for e in evs)
+        last = {}
+        for e in evs:
+            kind = "D" if e.otype.value == "dir" else "F"
+            if ref.oip and e.prior_oid and e.prior_oid != e.oid:
+                last[e.prior_oid] = (False, kind)            # path ids: a rename event retires the id it names as prior
+            last[e.oid] = (bool(e.exists), kind)
+        want = {}
+        for oid, ex, kind in exp:
+            want[oid] = (ex, kind)
+        for oid, (ex, kind) in want.items():
+            if oid not in last:
+                return "the call changed id %r (now exists=%s) but events() reported nothing for it: %r" % (
+                    oid, ex, [(e.oid, bool(e.exists)) for e in evs])
+            if last[oid][0] != ex:
+                return "events() reports id %r with exists=%s, it is exists=%s now" % (oid, last[oid][0], ex)
+            if last[oid][1] != kind:
+                return "events() reports id %r as %s, the object is %s" % (oid, last[oid][1], kind)
+        for oid, (ex, _k) in last.items():
+            if bool(p.exists_oid(oid)) != ex:
+                return "events law: the last event for id %r says exists=%s, exists_oid says %s" % (oid, ex, not ex)
         return None
+
+    def check_all(after):
+        """every object of the tree is there with its own bytes and hash, and nothing else answers"""
+        for kk, n in ref.nodes.items():
+            pth = ref.pathstr(n.disp)
+            i = p.info_path(pth)
+            if i is None:
+                return "%s: object %r of the tree is no longer visible through info_path" % (after, pth)
+            m = expect_info(i, n)
+            if m:
+                return "%s: %r: %s" % (after, pth, m)
+            if n.kind == "F":
+                f = io.BytesIO()
+                try:
+                    p.download(i.oid, f)
+                except Exception as e:  # noqa
+                    return "%s: download of %r raised %s" % (after, pth, err_tok(e))
+                if f.getvalue() != ct.vals[n.tok]:
+                    return "%s: the bytes of %r changed (%d bytes, were %d)" % (after, pth, len(f.getvalue()), len(ct.vals[n.tok]))
+            else:
+                try:
+                    got = sorted(x.name for x in p.listdir(i.oid))
+                except Exception as e:  # noqa
+                    return "%s: listdir of %r raised %s" % (after, pth, err_tok(e))
+                want = sorted(ref.nodes[c].disp[-1] for c in ref.children(kk))
+                if got != want:
+                    return "%s: listdir(%r) yields %r, the tree has %r" % (after, pth, got, want)
+        return None
+
+    def events_law():
+        """the folded event stream (per id: last event wins) agrees with exists_oid for every id it ever mentioned, and
+        every live object has been reported as existing.  Filesystem provider: watchdog delivers asynchronously (moves are
+        held back up to half a second to pair them), so the law is polled with a deadline — partial."""
+        deadline = time.monotonic() + (0.0 if be.kind == "mock" else 4.0)
+        while True:
+            for e in p.events():
+                view.feed(e)
+            bad = None
+            for oid, said in sorted(view.exists.items(), key=lambda kv: str(kv[0])):
+                try:
+                    actual = bool(p.exists_oid(oid))
+                except Exception as e:  # noqa
+                    bad = "exists_oid(%r) raised %s" % (be.oid_out(oid), err_tok(e))
+                    break
+                if actual != said:
+                    bad = ("events law: the last event for id %r says exists=%s, exists_oid says %s"
+                           % (be.oid_out(oid), said, actual))
+                    break
+            if bad is None:
+                for kk, n in ref.nodes.items():
+                    if kk != () and n.oid is not None and view.exists.get(be.oid_in(n.oid)) is not True:
+                        bad = "events law: live object %r (id %r) was never reported as existing by the event stream" % (
+                            ref.pathstr(n.disp), n.oid)
+                        break
+            if bad is None or time.monotonic() >= deadline:
+                return bad
+            time.sleep(0.05)
 
     def rewind(k):
         """set current_cursor to a saved value and drain: exactly the events with index > k, in order"""
@@ -1156,7 +1464,18 @@ def contract_oracle(be, ct, rng, flavour, nops, names, bad_names, allowed=None, 
                     "%d events with index > %d: %r" % (k, len(log), len(got), got[:4], len(want), k, want[:4]))
         return None
 
+    last_mut = None
     for step_no in range(len(fixed_ops) if fixed_ops is not None else nops):
+        if last_mut is not None and be.kind == "fs":
+            # watchdog adds the watch of a new folder when it *processes* the creation event; a folder renamed before that
+            # is never watched and everything created in it goes unreported.  The contract is exercised at the pace of a
+            # user: the next call is made once the stream has gone quiet.
+            be.settle()
+        if last_mut is not None:
+            m = check_all("after %r" % (last_mut,))      # a call must not touch any object but its target(s)
+            if m:
+                return fail(m)
+            last_mut = None
         if fixed_ops is not None:
             op = fixed_ops[step_no]
         elif be.kind == "mock" and rng.random() < 0.12:
@@ -1171,13 +1490,18 @@ def contract_oracle(be, ct, rng, flavour, nops, names, bad_names, allowed=None, 
             if m:
                 return fail(m)
             continue
-        if op[0] in ("setcur", "events", "latest", "current"):
+        if op[0] in ("setcur", "events", "latest", "current", "sweep"):
+            continue
+        op = tuple(gs.resolve(ref, x) for x in op)
+        if be.kind == "fs" and op[0] not in FS_OPS:
             continue
         if not guard_ok(ref, op, ci_path):
             continue
         if be.kind == "fs" and not fs_op_ok(ref, op):
             continue
         done.append(op)
+        if op[0] in MUTATING:
+            last_mut = op
         k = op[0]
         res = None
         try:
@@ -1204,7 +1528,8 @@ def contract_oracle(be, ct, rng, flavour, nops, names, bad_names, allowed=None, 
                     return fail("path-style provider: create returned oid %r for path %r" % (oid, op[1]))
                 n.oid = oid
                 gs.seen_oids.append(oid)
-                m = expect_info(i, n) or expect_events([(i.oid, True)])
+                gs.last_oid[op[1]] = oid
+                m = expect_info(i, n) or expect_events([(i.oid, True, "F")])
                 if m:
                     return fail(m)
             elif k == "mkdir":
@@ -1227,7 +1552,8 @@ def contract_oracle(be, ct, rng, flavour, nops, names, bad_names, allowed=None, 
                         return fail("path-style provider: mkdir returned oid %r for path %r" % (oid, op[1]))
                     ref.nodes[kk].oid = oid
                     gs.seen_oids.append(oid)
-                    m = expect_events([(be.oid_in(oid), True)])
+                    gs.last_oid[op[1]] = oid
+                    m = expect_events([(be.oid_in(oid), True, "D")])
                 else:
                     m = None if oid == ref.nodes[kk].oid else "mkdir of an existing folder returned %r, the folder's id is %r" % (oid, ref.nodes[kk].oid)
                     m = m or expect_events([])
@@ -1244,7 +1570,7 @@ def contract_oracle(be, ct, rng, flavour, nops, names, bad_names, allowed=None, 
                     continue
                 if want[0] != "ok":
                     return fail("upload succeeded, contract says %s" % want[1])
-                m = expect_info(i, ref.nodes[tk]) or expect_events([(i.oid, True)])
+                m = expect_info(i, ref.nodes[tk]) or expect_events([(i.oid, True, "F")])
                 if m:
                     return fail(m)
             elif k == "download":
@@ -1277,7 +1603,7 @@ def contract_oracle(be, ct, rng, flavour, nops, names, bad_names, allowed=None, 
                         return fail("exists_oid is still true after delete")
                     if p.exists_path(ref.pathstr(want[1].disp)) or p.info_path(ref.pathstr(want[1].disp)) is not None:
                         return fail("exists_path / info_path still see the object after delete")
-                    m = expect_events([(be.oid_in(op[1]), False)])
+                    m = expect_events([(be.oid_in(op[1]), False, want[1].kind)])
                 else:
                     m = expect_events([])
                 if m:
@@ -1308,11 +1634,14 @@ def contract_oracle(be, ct, rng, flavour, nops, names, bad_names, allowed=None, 
                 if moved:
                     ref.nodes[dk].oid = new_oid
                 gs.seen_oids.append(new_oid)
+                gs.last_oid[op[2]] = new_oid
                 exp = []
                 if replaced is not None:
-                    exp.append((replaced.oid, False))
+                    exp.append((replaced.oid, False, "D"))
                 if moved:
-                    exp.append((new_oid, True))
+                    exp.append((new_oid, True, ref.nodes[dk].kind))
+                    if ref.oip and op[1] != new_oid:
+                        exp.append((op[1], False, ref.nodes[dk].kind))        # path ids: the old id is gone
                 m = expect_events(exp)
                 if m:
                     return fail(m)
@@ -1368,14 +1697,10 @@ def contract_oracle(be, ct, rng, flavour, nops, names, bad_names, allowed=None, 
                     return fail("hash_data: equal bytes <-> equal hashes fails for contents of %d and %d bytes" % (len(ct.vals[a]), len(ct.vals[b])))
         except HarnessError:
             raise
-    # closing sweep: every tree node is visible and nothing else is
-    for kk, n in ref.nodes.items():
-        i = p.info_path(ref.pathstr(n.disp))
-        if i is None:
-            return fail("object %r of the tree is not visible through info_path at the end" % ref.pathstr(n.disp))
-        m = expect_info(i, n)
-        if m:
-            return fail("final sweep: " + m)
+    # closing sweep: every tree node is visible with its own bytes, and the event stream told the whole story
+    m = check_all("at the end") or events_law()
+    if m:
+        return fail(m)
     return None
 
 
@@ -1400,11 +1725,35 @@ def shrink(be, ct, rng, flavour, hit, names, bad_names, allowed):
     return hit
 
 
+def fs_confirm(fsb, ct, rng, hit, res):
+    """watchdog's asynchronous delivery makes the filesystem events law occasionally miss on a loaded machine: a hit on
+    the filesystem provider counts only if the same call sequence fails again on a fresh namespace"""
+    if hit is None:
+        return None
+    again = contract_oracle(fsb, ct, rng, (True, True), 0, NAMES, [LONG], FS_OPS, fixed_ops=hit["raw_ops"])
+    if again is None:
+        res.notes.append("filesystem oracle hit not reproduced on replay (discarded): %s" % hit["failure"][:120])
+    return again
+
+
 def search(res, tier, seed, broken, mockb, fsb, ct):
     srng = rng_for(seed, "c16search")
     hit = fs_cursor_law(fsb)
     if hit:
         return hit
+    # first the collision programs (every kind of name collision), on every flavour and on the filesystem provider
+    progs = collision_programs()
+    for idx, (tag, ops) in enumerate(progs):
+        for fl in FLAVOURS:
+            hit = contract_oracle(mockb, ct, srng, fl, 0, NAMES, [BAD_MOCK], None, fixed_ops=ops)
+            if hit:
+                hit["program"] = tag
+                return shrink(mockb, ct, srng, fl, hit, NAMES, [BAD_MOCK], None)
+        if tier != "quick" or tag.startswith("p%d|" % (seed % 3)):
+            hit = fs_confirm(fsb, ct, srng, contract_oracle(fsb, ct, srng, (True, True), 0, NAMES, [LONG], FS_OPS, fixed_ops=ops), res)
+            if hit:
+                hit["program"] = tag
+                return shrink(fsb, ct, srng, (True, True), hit, NAMES, [LONG], FS_OPS)
     n = 600 if tier == "quick" else 6000
     for j in range(n):
         fl = FLAVOURS[j % 4]
@@ -1412,7 +1761,7 @@ def search(res, tier, seed, broken, mockb, fsb, ct):
         if hit:
             return shrink(mockb, ct, srng, fl, hit, NAMES + MOCK_ONLY_NAMES, [BAD_MOCK], None)
         if j % 10 == 0:
-            hit = contract_oracle(fsb, ct, srng, (True, True), srng.randint(4, 25), NAMES, [LONG], FS_OPS)
+            hit = fs_confirm(fsb, ct, srng, contract_oracle(fsb, ct, srng, (True, True), srng.randint(4, 25), NAMES, [LONG], FS_OPS), res)
             if hit:
                 return shrink(fsb, ct, srng, (True, True), hit, NAMES, [LONG], FS_OPS)
     hit = connect_law(srng, 50)
@@ -1516,10 +1865,22 @@ def run(res, tier, seed, proof_broken, replay):
         # 3. correspondence
         nseq, nlen = (240, 30) if tier == "quick" else (4000, 45)
         l1, r1, m1 = run_sequences(mockb, ct, rng, nseq, nlen, MOCK_CONFIGS, "mockfs", NAMES + MOCK_ONLY_NAMES, [BAD_MOCK],
-                                   with_dump=True)
+                                   with_dump=True, sweep=0.25)
+        # every kind of name collision, as fixed programs, on every mock configuration and on the filesystem provider,
+        # with a read-back of every mentioned path (info incl. hash, bytes, listings) after every mutating call
+        allprogs = collision_programs()
+        progs = allprogs if tier != "quick" else [pr for pr in allprogs if pr[0].startswith("p%d|" % (seed % 3))]
+        mock_cfgs = sorted(set(MOCK_CONFIGS))
+        lc, rc, mc = run_sequences(mockb, ct, rng, 0, 0, None, "mockfs", NAMES, [BAD_MOCK], with_dump=True,
+                                   programs=[(cfg, ops) for cfg in mock_cfgs for _tag, ops in progs])
+        l1, r1, m1 = l1 + lc, r1 + rc, m1 + mc
         d1 = diff(l1, r1, run_driver("mockfs", l1), "mockfs")
-        fseq, flen = (40, 25) if tier == "quick" else (500, 40)
-        l2, r2, m2 = run_sequences(fsb, ct, rng, fseq, flen, [(True, True)], "tree", NAMES, [LONG], allowed=FS_OPS)
+        fseq, flen = (30, 25) if tier == "quick" else (500, 40)
+        l2, r2, m2 = run_sequences(fsb, ct, rng, fseq, flen, [(True, True)], "tree", NAMES, [LONG], allowed=FS_OPS, sweep=0.5)
+        lf, rf, mf = run_sequences(fsb, ct, rng, 0, 0, None, "tree", NAMES, [LONG], allowed=FS_OPS,
+                                   programs=[((True, True), prefixed(ops, "/n%d" % i)) for i, (_tag, ops) in enumerate(progs)],
+                                   one_namespace=True)
+        l2, r2, m2 = l2 + lf, r2 + rf, m2 + mf
         fs_lines = [x for x in l2]
         model2 = run_driver("tree", fs_lines)
         # the filesystem provider's info carries no name, and directory sizes are the OS's: compare kind/oid/hash/path/size
@@ -1533,7 +1894,7 @@ def run(res, tier, seed, proof_broken, replay):
         d2 = diff(l2, [strip_name(x) for x in r2], [strip_name(x) for x in model2], "tree(FileSystemProvider)")
         nh, d3 = fshash_correspondence(fsb, rng, tier)
         l4, r4, d4 = connect_correspondence(rng, 60 if tier == "quick" else 1000)
-        nfc, fc_discarded, d5 = fscursor_correspondence(fsb, ct, rng, 6 if tier == "quick" else 60)
+        nfc, fc_discarded, d5 = fscursor_correspondence(fsb, ct, rng, 4 if tier == "quick" else 60)
         ev_checked, ev_right, ev_mangled, ev_missing = fs_events_check(fsb, ct, rng, 2 if tier == "quick" else 10)
         ev_known = "fs-events-non-move-treated-as-move" in opens
         law_bad = fs_hash_law(fsb, [0, 1, 1023, 1024, 1025, 2047, 2048, 2049, 2050, 4096, 5000])
@@ -1568,6 +1929,9 @@ def run(res, tier, seed, proof_broken, replay):
             "mock_op_histogram": ops_hist, "mock_flavour_sequences": histogram(str(m[1]) for m in m1 if m[0] == "reset"),
             "mock_result_histogram": out_hist, "fs_result_histogram": fs_out_hist, "fs_sequences": fseq,
             "content_size_classes": size_hist, "name_classes": name_hist, "fshash_lines": nh, "connect_lines": len(l4),
+            "collision_programs": len(progs), "collision_program_kinds": histogram(t.split("|")[1].split(":")[0] for t, _ in progs),
+            "sweep_lines": sum(1 for m in m1 + m2 if m[0] == "sweep"),
+            "fs_rename_outcomes": histogram(r.split(" ")[0] for ln, r in zip(l2, r2) if ln.startswith("rename ")),
             "fs_events_checked": ev_checked, "fs_events_right": ev_right, "fs_events_missing": len(ev_missing),
             "fs_events_mangled_known_finding": len(ev_mangled),
             "fs_hash_law_sizes_failing": law_bad, "observer_thread_errors": list(fsb.thread_errors)[:5],
